@@ -135,13 +135,22 @@ func (g *gen) addr(n int) *pbuf {
 		default:
 			ts = nowU32() - uint32(g.r.Intn(100000))
 		}
-		p.u32(ts)
-		p.u64([]uint64{0x409, 1, 0, 0xffffffffffffffff, 8}[g.r.Intn(5)])
-		p.raw([]byte{0, 0, 0, 0, 0, 0, 0, 0, 0, 0, 0xff, 0xff})
 		ip := []byte{byte(50 + g.r.Intn(40)), byte(g.r.Intn(256)), byte(g.r.Intn(256)), byte(1 + g.r.Intn(250))}
 		if g.r.Intn(8) == 0 {
 			ip = [][]byte{{10, 0, 0, 1}, {127, 0, 0, 1}, {0, 0, 0, 0}, {192, 168, 1, 1}}[g.r.Intn(4)]
 		}
+		if g.r.Intn(3) == 0 {
+			// a handful of hosts that are advertised again and again (within one message and across messages and
+			// connections, with older, equal and newer time stamps): the second advertisement finds a record in the database
+			ip = []byte{61, 7, 7, byte(1 + g.r.Intn(6))}
+			if g.r.Intn(3) == 0 {
+				ts = nowU32() - 5000 // the very same entry again
+			}
+		}
+
+		p.u32(ts)
+		p.u64([]uint64{0x409, 1, 0, 0xffffffffffffffff, 8}[g.r.Intn(5)])
+		p.raw([]byte{0, 0, 0, 0, 0, 0, 0, 0, 0, 0, 0xff, 0xff})
 		p.raw(ip)
 		p.raw([]byte{0x20, 0x8d})
 	}
